@@ -167,7 +167,7 @@ def classify_sort(case):
 @st.composite
 def kv_inputs(draw):
     case = draw(sort_inputs())
-    case["vcontainer"] = draw(st.sampled_from(["list", "array", "strlist"]))
+    case["vcontainer"] = draw(st.sampled_from(["list", "array", "strlist", "dictlist"]))
     case["vmode"] = draw(st.sampled_from(["position", "position", "tied"]))
     return case
 
@@ -186,12 +186,18 @@ def check_sort_kv(case, ctx):
     elif case["vcontainer"] == "strlist":
         values = ["v%d" % v for v in vvals]
         vvals = list(values)
+    elif case["vcontainer"] == "dictlist":
+        # payloads that cannot be compared with one another (records): only the keys are ordered
+        values = [{"row": v} for v in vvals]
+        vvals = ["{'row': %d}" % v for v in vvals]
     else:
         values = list(vvals)
     r = must(quicksort_keyvalue, keys, values)
     require(r is None, "quicksort_keyvalue is in-place and must return None, got %r", type(r))
     kout = keys.tolist() if isinstance(keys, np.ndarray) else keys
     vout = values.tolist() if isinstance(values, np.ndarray) else values
+    if case["vcontainer"] == "dictlist":
+        vout = [repr(v) for v in vout]
     require(len(kout) == n and len(vout) == n, "lengths changed: %d keys, %d values (was %d)", len(kout), len(vout), n)
     bad = [i for i in range(n - 1) if kout[i] > kout[i + 1]]
     require(not bad, "keys not non-decreasing at position %d (n=%d)", bad[0] if bad else -1, n)
@@ -235,6 +241,13 @@ def _typed(v, t):
 def check_isplit(case, ctx):
     from esutil.algorithm import isplit
     num, nchunks = case["num"], case["nchunks"]
+    if not case.get("_again"):
+        # an earlier call whose result the caller shifted in place (ranges relative to a file offset) must not
+        # show through in the call that is judged
+        prev = must(isplit, _typed(num, case["numtype"]), _typed(nchunks, case["nctype"]))
+        if isinstance(prev, np.ndarray) and prev.dtype.names and prev.flags.writeable:
+            prev["start"] += 1000
+            prev["end"] += 1000
     subs = must(isplit, _typed(num, case["numtype"]), _typed(nchunks, case["nctype"]))
     require(isinstance(subs, np.ndarray) and subs.dtype.names is not None and
             "start" in subs.dtype.names and "end" in subs.dtype.names,
